@@ -91,7 +91,8 @@ func c36(r *core.Run) {
 	r.Explanation = "Decided clauses: (R1) pool reset completeness: for every sync.Pool of the shipped packages, the fields assigned or cleared on the object between Get and first use cover every field of the pooled struct " +
 		"(lexer: clear+Lex; sema.VariableActivation: Clear+SetParent; sema.Resources: clear), so no state of an earlier user — possibly another goroutine — survives; the acquiring function calls the reset on every path; " +
 		"(R2) release discipline: map/buffer pools clear before Put, and the CCF scratch buffer is released only by a deferred call (its contents are still referenced until the encoder returns); " +
-		"(R3) package-level maps and slices of the shipped packages are written only during package initialisation, apart from the reviewed lock- or once-guarded registries."
+		"(R3) package-level maps and slices of the shipped packages are written only during package initialisation, apart from the reviewed lock- or once-guarded registries; " +
+		"(R4) an object published through a sync.Map or an atomic pointer/value is not handed to any further call after the publishing call (published complete)."
 	r.NotDecided = "data-race freedom and result equality under arbitrary schedules (needs the race detector / schedule exploration); shared mutable state reachable through pointers in sema/ast types."
 	w := r.W
 	type poolSpec struct {
@@ -250,6 +251,7 @@ func c36(r *core.Run) {
 		}
 	}
 	r.Floor("R3.globals", 1)
+	c36PublishAfterPopulate(r)
 }
 
 // poolReleaseDiscipline: pool objects are cleared before Put and the CCF scratch buffer is released only by defer.
@@ -330,4 +332,116 @@ func poolReleaseDiscipline(r *core.Run, rule string) {
 	if n == 0 {
 		r.Undecided(rule, "pool release call sites", "no caller found")
 	}
+}
+
+// c36PublishAfterPopulate: R4 — a lazily computed value that other goroutines may read (stored into a sync.Map or an
+// atomic.Pointer / atomic.Value) must be complete when it is published: after the publishing call (Store,
+// CompareAndSwap, LoadOrStore, Swap) the function must not hand the published object to any further call (a method
+// that fills it, a helper that receives it). A concurrent reader that loads the object in between sees a partial value.
+func c36PublishAfterPopulate(r *core.Run) {
+	const rule = "R4.publish"
+	w := r.W
+	publishing := map[string]bool{"Store": true, "CompareAndSwap": true, "LoadOrStore": true, "Swap": true}
+	n := 0
+	for _, fn := range w.SrcFuncs() {
+		if fn.Pkg == nil || !w.InScope(fn.Pkg.Pkg.Path()) || fn.Parent() != nil {
+			continue
+		}
+		for _, g := range core.WithAnon(fn) {
+			for _, c := range core.Calls(g, false) {
+				sc := core.Callee(c)
+				if sc == nil || sc.Pkg() == nil || !publishing[sc.Name()] {
+					continue
+				}
+				if pp := sc.Pkg().Path(); pp != "sync" && pp != "sync/atomic" {
+					continue
+				}
+				args := c.Common().Args
+				if len(args) < 2 {
+					continue
+				}
+				// the published value: last argument (Store(v) / Store(k, v) / CompareAndSwap(old, new) / LoadOrStore(k, v))
+				pub := core.Unwrap(args[len(args)-1])
+				if _, isConst := pub.(*ssa.Const); isConst {
+					continue
+				}
+				if _, isPtr := pub.Type().Underlying().(*types.Pointer); !isPtr {
+					if _, isMap := pub.Type().Underlying().(*types.Map); !isMap {
+						continue // values copied at publication cannot be completed afterwards
+					}
+				}
+				n++
+				var late ssa.Instruction
+				if refs := pub.Referrers(); refs != nil {
+					for _, ref := range *refs {
+						user := ref
+						if mi, ok := ref.(*ssa.MakeInterface); ok && mi.Referrers() != nil {
+							for _, r2 := range *mi.Referrers() {
+								if c2, ok := r2.(ssa.CallInstruction); ok && c2 != c && core.ReachableAfter(c, c2) {
+									late = c2
+								}
+							}
+							continue
+						}
+						c2, ok := user.(ssa.CallInstruction)
+						if !ok || c2 == c || !core.ReachableAfter(c, c2) {
+							continue
+						}
+						if sc2 := core.Callee(c2); sc2 != nil && sc2.Pkg() != nil && (sc2.Pkg().Path() == "sync" || sc2.Pkg().Path() == "sync/atomic") {
+							continue
+						}
+						late = c2
+					}
+				}
+				if al, ok := pub.(*ssa.Alloc); ok && al.Referrers() != nil {
+					// the address of a local (e.g. &members): any later access of the local is an access of the published object
+					for _, ref := range *al.Referrers() {
+						if ref == ssa.Instruction(c.(ssa.Instruction)) {
+							continue
+						}
+						switch ref.(type) {
+						case *ssa.Store, *ssa.UnOp, *ssa.FieldAddr, *ssa.IndexAddr:
+							if core.ReachableAfter(c, ref) {
+								// a load that only feeds the function's return is the handing-out of the finished object
+								if ld, isLoad := ref.(*ssa.UnOp); isLoad && onlyReturned(ld) {
+									continue
+								}
+								late = ref
+							}
+						}
+					}
+				}
+				key := core.SSAKey(fn) + ": " + sc.Pkg().Name() + "." + core.RecvName(sc) + "." + sc.Name() + "(" + types.TypeString(pub.Type(), shortQual) + ")"
+				pos := c.Pos()
+				if late != nil {
+					pos = late.Pos()
+				}
+				r.Check(late == nil, rule, key, pos, "the published object is not touched after publication",
+					"an object is published to other goroutines (sync.Map / atomic) and handed to a further call afterwards: a concurrent reader can observe it partially filled")
+			}
+		}
+	}
+	r.Check(n >= 20, rule, "publications of lazily computed objects", 0, itoa(n)+" examined", "fewer publications than reviewed")
+	r.Floor(rule, 20)
+}
+
+// onlyReturned reports whether every use of v is a return (possibly through an interface conversion).
+func onlyReturned(v ssa.Value) bool {
+	refs := v.Referrers()
+	if refs == nil {
+		return true
+	}
+	for _, ref := range *refs {
+		switch x := ref.(type) {
+		case *ssa.Return:
+		case *ssa.MakeInterface:
+			if !onlyReturned(x) {
+				return false
+			}
+		case *ssa.DebugRef:
+		default:
+			return false
+		}
+	}
+	return true
 }
